@@ -51,32 +51,35 @@ PROPS = {
         "struct": True,
         "tests": ["TestC05"],
         "design_ref": "DESIGN.md §3.5",
-        "level_text": 'Theorems C05_single_flight (with SyncRead every builder invocation for k is preceded by a read of k under the key lock, by the invoking Get or the Get that spawned the background build, that did not hit, with no build result for k stored in between), C05_no_rebuild_while_fresh (hence against a backend that answers with a hit once a build result was stored, no second builder invocation for k: a burst costs one successful build), C05_failure_gate (a Get that checks the failure cache while the failure is live returns the cached error and is never inside the builder afterwards), C05_failures_not_cached (FailedUpdateTTL=-1: the failure cache stays empty) — Coq, no axioms, every number of Gets, keys, schedules, oracle answers. Correspondence: bursts under SyncRead and failure windows at exact fake-clock offsets (0.5/0.94/1.06/2 x FailedUpdateTTL), predicates C05_single_obs / C05_fail_obs on every implementation trace. Tie to the source: C05_source_failure_cache — the re-translated bodies of recentlyFailed and doBuild consult / fill the failure cache iff FailedUpdateTTL > -1, the entry living the failure cache\'s own TimeToLive.',
+        "level_text": 'Theorems C05_single_flight (with SyncRead every builder invocation for k is preceded by a read of k under the key lock, by the invoking Get or the Get that spawned the background build, that did not hit, with no build result for k stored in between), C05_no_rebuild_while_fresh (hence against a backend that answers with a hit once a build result was stored, no second builder invocation for k: a burst costs one successful build), C05_failure_gate (a Get that checks the failure cache while the failure is live returns the cached error and is never inside the builder afterwards), C05_failures_not_cached (FailedUpdateTTL=-1: the failure cache stays empty) — Coq, no axioms, every number of Gets, keys, schedules, oracle answers. Correspondence: bursts under SyncRead and failure windows at exact fake-clock offsets (0.5/0.94/1.06/2 x FailedUpdateTTL), predicates C05_single_obs / C05_fail_obs on every implementation trace. Tie to the source: C05_source_failure_cache — the re-translated bodies of recentlyFailed and doBuild consult / fill the failure cache iff FailedUpdateTTL > -1, the entry living the failure cache\'s own TimeToLive. Tie to the source: C05_source_get_follows_model — the bodies of Failover.Get and FailoverOf.Get, re-translated from /repo on every run (harness/cmd/gofunc -> Generated/Funcs.v, interpreted by theories/GoIR.v with their helpers as primitives, which are tied separately), follow the single-thread path of the model on the complete product of 7680 configuration/outcome combinations per variant: same call-outs in the same order, same returned and published (value, error), election and release inside f.lock exactly once by the creating Get, key copied before a background build (theories/TieGet.v, by computation over the finite product).',
         "level_note": "Trusted: as C01; 'while the result stays fresh' is the hypothesis [coherent] on the backend oracle (the real backends satisfy it by C07/C08); the expiry instant the failure cache stores is an oracle input validated against the C10 bound; that the builder is invoked again once the failure expired is checked by the correspondence run (the model has the step, no liveness theorem).",
     },
     "C04": {
+        "struct": True,
         "tests": ["TestC04"],
         "design_ref": "DESIGN.md §3.4",
-        "level_text": 'Theorems C04_quiescent_unlocked, C04_no_deadlock, C04_step_decreases / C04_steps_bounded / C04_new_get_costs_30, C04_rebuild_possible (Coq, no axioms) over the interleaving model: at quiescence no key lock is registered and all are closed; an unfinished state always has an enabled step; each Get finishes within 30 own steps. Correspondence: steered runs with hostile callers (context cancel, key buffer overwrite), faults, VerifKeyLocks()=0, forced expiry and follow-up Gets; sequential Gets with fake-clock gaps around UpdateTTL / FailedUpdateTTL.',
+        "level_text": 'Theorems C04_quiescent_unlocked, C04_no_deadlock, C04_step_decreases / C04_steps_bounded / C04_new_get_costs_30, C04_rebuild_possible (Coq, no axioms) over the interleaving model: at quiescence no key lock is registered and all are closed; an unfinished state always has an enabled step; each Get finishes within 30 own steps. Correspondence: steered runs with hostile callers (context cancel, key buffer overwrite), faults, VerifKeyLocks()=0, forced expiry and follow-up Gets; sequential Gets with fake-clock gaps around UpdateTTL / FailedUpdateTTL. Tie to the source: C04_source_get_follows_model — the bodies of Failover.Get and FailoverOf.Get, re-translated from /repo on every run (harness/cmd/gofunc -> Generated/Funcs.v, interpreted by theories/GoIR.v with their helpers as primitives, which are tied separately), follow the single-thread path of the model on the complete product of 7680 configuration/outcome combinations per variant: same call-outs in the same order, same returned and published (value, error), election and release inside f.lock exactly once by the creating Get, key copied before a background build (theories/TieGet.v, by computation over the finite product).',
         "level_note": "Trusted: as C01; 'returns once its builders returned' is bounded own-steps + enabledness in the model, real-time scheduling is outside it.",
     },
     "C03": {
         "struct": True,
         "tests": ["TestC03"],
         "design_ref": "DESIGN.md §3.3",
-        "level_text": 'Theorem C03_table (Coq, no axioms, by computation over 20480 shapes with values, instants and durations symbolic): running the interleaving model for a lone Get yields exactly the README decision table, for both answers of the staleness test, both APIs, all option combinations, with/without logger and stats. The implementation is compared with the same table on the complete product (504 cells quick, 1008 thorough) and with the model step by step. Tie to the source: C03_source_ctx_sync and C03_source_staleness_test — the bodies of ctxSync, freshEnough and valueFromError, re-translated from /repo on every run (harness/cmd/gofunc, theories/GoIR.v), are the model\'s sync/background decision and staleness test.',
+        "level_text": 'Theorem C03_table (Coq, no axioms, by computation over 20480 shapes with values, instants and durations symbolic): running the interleaving model for a lone Get yields exactly the README decision table, for both answers of the staleness test, both APIs, all option combinations, with/without logger and stats. The implementation is compared with the same table on the complete product (504 cells quick, 1008 thorough) and with the model step by step. Tie to the source: C03_source_ctx_sync and C03_source_staleness_test — the bodies of ctxSync, freshEnough and valueFromError, re-translated from /repo on every run (harness/cmd/gofunc, theories/GoIR.v), are the model\'s sync/background decision and staleness test. Tie to the source: C03_source_get_follows_model — the bodies of Failover.Get and FailoverOf.Get, re-translated from /repo on every run (harness/cmd/gofunc -> Generated/Funcs.v, interpreted by theories/GoIR.v with their helpers as primitives, which are tied separately), follow the single-thread path of the model on the complete product of 7680 configuration/outcome combinations per variant: same call-outs in the same order, same returned and published (value, error), election and release inside f.lock exactly once by the creating Get, key copied before a background build (theories/TieGet.v, by computation over the finite product).',
         "level_note": 'Trusted: as C01; the table is a transcription of README bullets 2-7 (DESIGN Appendix B).',
     },
     "C02": {
+        "struct": True,
         "tests": ["TestC02"],
         "design_ref": "DESIGN.md §3.2",
-        "level_text": 'Theorems C02_provenance / C02_value_was_built_or_stored / C02_error_was_produced (Coq, no axioms): an invariant over every reachable state of the interleaving model (any number of Gets and keys, any schedule, adversarial backend / builder / clock, every configuration, both variants, every staleness test and every nil test recognising the zero token): each return event in the ghost log is justified by events BEFORE it — with a nil error the value was returned by a finished builder invocation for the same key or read from the backend under that key; an error was produced by a builder invocation for that key (possibly served from the failure cache) or by the backend for that key. Carried by invariants on threads, key-lock records (published before close), the failure cache and the log (FailoverProv.v). Correspondence: steered runs with injected backend faults, C02_obs on every implementation trace.',
+        "level_text": 'Theorems C02_provenance / C02_value_was_built_or_stored / C02_error_was_produced (Coq, no axioms): an invariant over every reachable state of the interleaving model (any number of Gets and keys, any schedule, adversarial backend / builder / clock, every configuration, both variants, every staleness test and every nil test recognising the zero token): each return event in the ghost log is justified by events BEFORE it — with a nil error the value was returned by a finished builder invocation for the same key or read from the backend under that key; an error was produced by a builder invocation for that key (possibly served from the failure cache) or by the backend for that key. Carried by invariants on threads, key-lock records (published before close), the failure cache and the log (FailoverProv.v). Correspondence: steered runs with injected backend faults, C02_obs on every implementation trace. Tie to the source: C02_source_get_follows_model — the bodies of Failover.Get and FailoverOf.Get, re-translated from /repo on every run (harness/cmd/gofunc -> Generated/Funcs.v, interpreted by theories/GoIR.v with their helpers as primitives, which are tied separately), follow the single-thread path of the model on the complete product of 7680 configuration/outcome combinations per variant: same call-outs in the same order, same returned and published (value, error), election and release inside f.lock exactly once by the creating Get, key copied before a background build (theories/TieGet.v, by computation over the finite product).',
         "level_note": "Trusted: as C01; unique token discipline of the harness (builder tokens, seeds, error numbers are distinct so 'belongs to another key' is decidable on traces). A panicking builder is outside the model (the owner then closes the key lock without publishing).",
     },
     "C01": {
+        "struct": True,
         "tests": ["TestC01"],
         "design_ref": "DESIGN.md §3.1",
-        "level_text": 'Theorems C01_no_overlapping_builds / C01_log_intervals_disjoint / C01_owner_region_exclusive / C01_lock_invariant (Coq, no axioms): in a small-step interleaving model of Failover.Get and FailoverOf.Get (every shared access and every call-out is a step; backend, builder and clock are adversarial oracles) no reachable state has two threads inside the builder for one key, for any number of Gets, keys, schedules and configurations. Tied to failover.go / failover_go1.18.go by steered schedules under testing/synctest: every frontend call-out (before and after backend calls, builder entry/exit, logs, stats) is a parking point; model and implementation are compared step by step.',
+        "level_text": 'Theorems C01_no_overlapping_builds / C01_log_intervals_disjoint / C01_owner_region_exclusive / C01_lock_invariant (Coq, no axioms): in a small-step interleaving model of Failover.Get and FailoverOf.Get (every shared access and every call-out is a step; backend, builder and clock are adversarial oracles) no reachable state has two threads inside the builder for one key, for any number of Gets, keys, schedules and configurations. Tied to failover.go / failover_go1.18.go by steered schedules under testing/synctest: every frontend call-out (before and after backend calls, builder entry/exit, logs, stats) is a parking point; model and implementation are compared step by step. Tie to the source: C01_source_get_follows_model — the bodies of Failover.Get and FailoverOf.Get, re-translated from /repo on every run (harness/cmd/gofunc -> Generated/Funcs.v, interpreted by theories/GoIR.v with their helpers as primitives, which are tied separately), follow the single-thread path of the model on the complete product of 7680 configuration/outcome combinations per variant: same call-outs in the same order, same returned and published (value, error), election and release inside f.lock exactly once by the creating Get, key copied before a background build (theories/TieGet.v, by computation over the finite product).',
         "level_note": 'Trusted: Coq kernel; the hand-written model (its tie to the code is differential: ~260 steered schedules per quick run, 12x in thorough); the DRF-SC argument that step-granular interleavings cover real executions (DESIGN §2.2); synctest; the harness.',
     },
     "C14": {
@@ -123,7 +126,7 @@ PROPS = {
         "struct": True,
         "tests": ["TestC09"],
         "design_ref": "DESIGN.md §3.9",
-        "level_text": "Theorem C09_collision_costs_at_most_a_miss (Coq, no axioms): for EVERY hash function each keyed result is the reference result or ErrNotFound (simulation R1: every resident entry sits in its own key's slot and equals the reference entry). Correspondence: constructed xxhash64 collision pairs (verified with the real hash), exhaustive short sequences and random long ones with the caller's key buffer overwritten after every call; Failover part: steered Gets with buffer overwrite during background builds, every backend access must carry the Get's key. Tie to the source: C09_source_key_check (the bodies of Read / Delete of the sharded maps, re-translated from /repo on every run by harness/cmd/gofunc, act on the resident entry only when bytes.Equal(entry.K, key) holds) and C09_source_write_copies_key (Write of all three backends stores make+copy of the key, never the caller's slice).",
+        "level_text": "Theorem C09_collision_costs_at_most_a_miss (Coq, no axioms): for EVERY hash function each keyed result is the reference result or ErrNotFound (simulation R1: every resident entry sits in its own key's slot and equals the reference entry). Correspondence: constructed xxhash64 collision pairs (verified with the real hash), exhaustive short sequences and random long ones with the caller's key buffer overwritten after every call; Failover part: steered Gets with buffer overwrite during background builds, every backend access must carry the Get's key. Tie to the source: C09_source_key_check (the bodies of Read / Delete of the sharded maps, re-translated from /repo on every run by harness/cmd/gofunc, act on the resident entry only when bytes.Equal(entry.K, key) holds) and C09_source_write_copies_key (Write of all three backends stores make+copy of the key, never the caller's slice). Tie to the source: C09_source_get_follows_model — the bodies of Failover.Get and FailoverOf.Get, re-translated from /repo on every run (harness/cmd/gofunc -> Generated/Funcs.v, interpreted by theories/GoIR.v with their helpers as primitives, which are tied separately), follow the single-thread path of the model on the complete product of 7680 configuration/outcome combinations per variant: same call-outs in the same order, same returned and published (value, error), election and release inside f.lock exactly once by the creating Get, key copied before a background build (theories/TieGet.v, by computation over the finite product).",
         "level_note": 'Trusted: as C07 and C01; collision construction is checked against the real xxhash before use.',
     },
     "C07": {
